@@ -10,7 +10,7 @@ use std::sync::Arc;
 
 use crate::{
     c07::{call_resolve, case_sx, decode_case, histories, oracle, outcome_sx, pick_subsets, scenario_chain_through_unconflicted,
-          scenario_mainline, smap_sx, ResolveCase, SMap, Sim},
+          scenario_concurrent_moderators, scenario_mainline, smap_sx, ResolveCase, SMap, Sim},
     rng::Rng,
     sx::Sx,
     Emitter,
@@ -83,6 +83,7 @@ pub fn run(tier: &str, seed: u64, em: &mut Emitter) {
         for ty in [5u64, 10, 20] {
             emit(em, "systematic", &scenario_mainline(tx, ty), r.next());
             emit(em, "systematic", &scenario_chain_through_unconflicted(tx, ty), r.next());
+            emit(em, "systematic", &scenario_concurrent_moderators(tx, ty), r.next());
         }
     }
     for h in 0..histories(tier) {
